@@ -26,6 +26,7 @@ FS = ["id", "inc", "dbl"]
 
 class Gen:
     mixed_api = 0.0   # probability that a request / stream of a command script uses the capability API
+    p_burst = float(os.environ.get("GEN_PBURST", "0.012"))   # probability that a script step is a burst of 33-44 outputs
     p_try = float(os.environ.get("GEN_PTRY", "0.08"))   # probability of a non-blocking read when a stream / channel is at hand
     p_chan = float(os.environ.get("GEN_PCH", "0.10"))   # probability that a script step is a task-to-task channel step
     p_then_stream = float(os.environ.get("GEN_PTS", "0.12"))   # probability that a chain has a then_stream stage
@@ -38,6 +39,7 @@ class Gen:
         self.budget = script_budget
         self.tagc = 0
         self.cmd_ids = []
+        self.bursts = 0
 
     def tag(self):
         self.tagc += 1
@@ -97,6 +99,15 @@ class Gen:
         if k in ("then", "and"):
             return {"k": k, "id": cid, "tid": tid, "a": self.cmd(depth + 1), "b": self.cmd(depth + 1)}
         if k == "all":
+            if r.random() < self.p_burst * 2 and not self.bursts and self.family != "legacy":
+                # a wide all: three dozen members that each produce one output at once
+                self.bursts += 1
+                cs = []
+                for _ in range(r.randint(33, 40)):
+                    mt, mi, mtid = self.ids.next(), self.ids.next(), self.ids.next()
+                    kind = r.choice(["event", "notify"])
+                    cs.append({"tid": mt, "c": {"k": kind, "id": mi, "tid": mtid, "tag": self.tag(), "val": r.randint(1, 9)}})
+                return {"k": "all", "id": cid, "tid": tid, "cs": cs}
             n = r.choice([0, 1, 2, 2, 3])
             return {"k": "all", "id": cid, "tid": tid,
                     "cs": [{"tid": self.ids.next(), "c": self.cmd(depth + 1)} for _ in range(n)]}
@@ -189,6 +200,16 @@ class Gen:
                 code.append({"op": "abortc", "id": r.choice(self.cmd_ids[-4:])})
                 continue
             if self.family == "legacy" and k in ("abort", "joinh"):
+                continue
+            if r.random() < self.p_burst and not self.bursts:
+                # a burst: dozens of outputs from one poll (queue limits, batching and back-pressure in
+                # whatever forwards them only show beyond a few dozen)
+                self.bursts += 1
+                for _ in range(r.randint(33, 44)):
+                    if r.random() < 0.6:
+                        code.append({"op": "notify", "tag": self.tag(), "src": self.src()})
+                    else:
+                        code.append({"op": "emit", "tag": self.tag(), "src": self.src()})
                 continue
             if streams and r.random() < self.p_try:
                 # a non-blocking look at a stream (now_or_never)
